@@ -434,6 +434,92 @@ pub fn spaces(tier: Tier) -> Vec<Space> {
             }
         }));
     }
+    // (e'') CHECKMULTISIG(VERIFY) with signatures that are really valid for the transaction: every m-of-n (n <= 3) with every
+    // m-tuple of signers over {K0, K1, K2, foreign key} - any order, with repetition - so that the key/signature cursor
+    // logic is driven through every match/mismatch pattern; oracle: totality, step == run, stacks kept on error
+    {
+        let keys: Vec<PrivateKey> = ["0000000000000000000000000000000000000000000000000000000000000001", "c0ffee254729296a45a3885639ac7e10f9d54979a0f5b2d1e8b1c4a7d3f6e5b9", "fffffffffffffffffffffffffffffffebaaedce6af48a03bbfd25e8cd0364140", "00000000000000000000000000000000000000000000000000000000000000aa"].iter().map(|h| PrivateKey::from_hex(h).unwrap()).collect();
+        let mut cases: Vec<(usize, usize, Vec<usize>)> = vec![];
+        for n in 1..=3usize {
+            for m in 1..=n {
+                for t in 0..4usize.pow(m as u32) {
+                    cases.push((m, n, (0..m).map(|i| (t / 4usize.pow(i as u32)) % 4).collect()));
+                }
+            }
+        }
+        let ncase = cases.len() as u64;
+        v.push(Space::new("multisig-valid-signatures", ncase * 2 * 2, move |case, acc| {
+            let c = coords(case.idx, &[ncase, 2, 2]);
+            let (m, n, signers) = cases[c[0] as usize].clone();
+            let op = if c[1] == 0 { 0xaeu8 } else { 0xaf };
+            let flag = if c[2] == 0 { bsv::SigHash::InputsOutputs } else { bsv::SigHash::try_from(0xc3u8).unwrap() };
+            let keys = keys.clone();
+            let mk = || -> Result<Interpreter, String> {
+                let es = |e: bsv::BSVErrors| e.to_string();
+                let mut l = vec![0x50 + m as u8];
+                for k in keys.iter().take(n) {
+                    let pk = k.to_public_key().map_err(es)?.to_bytes().map_err(es)?;
+                    l.push(pk.len() as u8);
+                    l.extend_from_slice(&pk);
+                }
+                l.push(0x50 + n as u8);
+                l.push(op);
+                if op == 0xaf {
+                    l.push(0x51);
+                }
+                let locking = Script::from_bytes(&l).map_err(es)?;
+                let mut tx = Transaction::new(1, 0);
+                let mut txin = TxIn::new(&[3u8; 32], 1, &Script::from_bytes(&[]).map_err(es)?, Some(5));
+                txin.set_satoshis(1000);
+                txin.set_locking_script(&locking);
+                tx.add_input(&txin);
+                tx.add_output(&TxOut::new(1, &Script::from_bytes(&[0x51]).unwrap()));
+                let mut u = vec![0x00u8];
+                for sg in &signers {
+                    let sig = tx.sign(&keys[*sg], flag, 0, &locking, 1000).map_err(es)?.to_bytes().map_err(es)?;
+                    u.push(sig.len() as u8);
+                    u.extend_from_slice(&sig);
+                }
+                txin.set_unlocking_script(&Script::from_bytes(&u).map_err(es)?);
+                tx.set_input(0, &txin);
+                Interpreter::from_transaction(&tx, 0).map_err(|e| e.to_string())
+            };
+            for f in check_total(&mk, acc) {
+                let input = json!({"m": m, "n": n, "signers": signers, "op": opname(op), "flag": c[2]});
+                acc.violate(f.key, case.idx, case.json(input), f.detail);
+            }
+        }));
+    }
+    // (e3) stack items that are valid UTF-8 text with multi-byte characters straddling every byte offset (and broken UTF-8):
+    // whatever the interpreter does with item contents for display or logging must not make run() differ from stepping
+    {
+        let mut texts: Vec<Vec<u8>> = vec![];
+        for l in 14..=44usize {
+            for off in 0..4usize {
+                for ch in ["\u{e9}", "\u{65e5}", "\u{1f600}"] {
+                    let mut t = "a".repeat(off);
+                    while t.len() + ch.len() <= l {
+                        t.push_str(ch);
+                    }
+                    texts.push(t.into_bytes());
+                }
+            }
+            texts.push([vec![b'a'; l - 1], vec![0xc3]].concat());
+            texts.push([vec![b'a'; l / 2], vec![0xe6, 0x97], vec![b'b'; l / 2]].concat());
+        }
+        texts.sort();
+        texts.dedup();
+        let progs: Vec<(&str, Vec<u8>)> = vec![("", vec![]), ("DUP", vec![0x76]), ("TOALTSTACK", vec![0x6b]), ("SIZE", vec![0x82]), ("DUP CAT", vec![0x76, 0x7e]), ("SHA256", vec![0xa8]), ("1 SPLIT", vec![0x51, 0x7f]), ("VERIFY", vec![0x69])];
+        let (nt, np) = (texts.len() as u64, progs.len() as u64);
+        v.push(Space::new("utf8-text-items", nt * np, move |case, acc| {
+            let c = coords(case.idx, &[nt, np]);
+            let t = &texts[c[0] as usize];
+            let mut bytes = rs::serialize(&[rs::minimal_push(t)]);
+            bytes.extend_from_slice(&progs[c[1] as usize].1);
+            let desc = || json!({"item_text": String::from_utf8_lossy(t), "item_hex": hex::encode(t), "then": progs[c[1] as usize].0});
+            check_script_bytes(&bytes, acc, case, &desc);
+        }));
+    }
     // (f) size/count operands that can make an implementation allocate or spin: child processes with an allocation budget
     {
         let vals = vals.clone();
